@@ -102,6 +102,7 @@ func main() {
 	var sites []site
 	nsync := 0
 	nselects := 0
+	nyields := 0
 	var funcs []string
 	for _, p := range pkgs {
 		if len(p.Errors) > 0 {
@@ -195,16 +196,6 @@ func main() {
 				}
 			}
 			rel, _ := filepath.Rel(*repo, name)
-			if !strings.HasSuffix(p.PkgPath, "/pkg/api") && !strings.HasSuffix(p.PkgPath, "/generate") {
-				rs, nsel, err := rewriteSelects(src, rel)
-				if err != nil {
-					die("%v", err)
-				}
-				if nsel > 0 {
-					src, changed = rs, true
-					nselects += nsel
-				}
-			}
 			for ei, e := range edits {
 				if e.File != rel {
 					continue
@@ -219,6 +210,24 @@ func main() {
 				}
 				used[ei] = true
 				changed = true
+			}
+			if !strings.HasSuffix(p.PkgPath, "/pkg/api") && !strings.HasSuffix(p.PkgPath, "/generate") {
+				ys, ny, err := insertYields(src, rel)
+				if err != nil {
+					die("%v", err)
+				}
+				if ny > 0 {
+					src, changed = ys, true
+					nyields += ny
+				}
+				rs, nsel, err := rewriteSelects(src, rel)
+				if err != nil {
+					die("%v", err)
+				}
+				if nsel > 0 {
+					src, changed = rs, true
+					nselects += nsel
+				}
 			}
 			if !changed {
 				continue
@@ -308,6 +317,14 @@ func (r *Adaptation) VerifServe(l net.Listener) error {
 				}
 			}
 			if strings.HasSuffix(n, ".go") && !strings.HasSuffix(n, ".pb.go") {
+				ys, ny, err := insertYields(s, "ttrpc/"+n)
+				if err != nil {
+					die("%v", err)
+				}
+				if ny > 0 {
+					s = ys
+					nyields += ny
+				}
 				rs, nsel, err := rewriteSelects(s, "ttrpc/"+n)
 				if err != nil {
 					die("%v", err)
@@ -322,9 +339,9 @@ func (r *Adaptation) VerifServe(l net.Listener) error {
 			}
 		}
 	}
-	sb2, _ := json.MarshalIndent(map[string]any{"map_range_sites": sites, "sync_imports_redirected": nsync, "selects_rewritten": nselects, "functions": funcs}, "", " ")
+	sb2, _ := json.MarshalIndent(map[string]any{"map_range_sites": sites, "sync_imports_redirected": nsync, "selects_rewritten": nselects, "yields_after_receives": nyields, "functions": funcs}, "", " ")
 	os.WriteFile(filepath.Join(*out, "simgen-report.json"), sb2, 0o644)
-	fmt.Printf("simgen: %d files in overlay, %d map-range sites, %d sync imports redirected, %d selects rewritten\n", len(overlay), len(sites), nsync, nselects)
+	fmt.Printf("simgen: %d files in overlay, %d map-range sites, %d sync imports redirected, %d selects rewritten, %d yields after receives\n", len(overlay), len(sites), nsync, nselects, nyields)
 }
 
 func addImport(f *ast.File, path string) {
